@@ -1,4 +1,4 @@
-(* Driver for the extracted C06 model (Refl/Server.v + Refl/IsoModel.v).  Reads the same cases as
+(* Driver for the extracted C06 model (Refl/Server.v + Refl/IsoModel.v + Refl/IsoOrd.v).  Reads the same cases as
    harness/iso_h.cpp (grammar there) and prints the same canonical text.
 
    External matching code (class MatchOps) as in mirror_driver.ml: clause text over [a-z0-9._~-], '*', '?', ',';
@@ -227,6 +227,119 @@ type evrec = { ev : xevent; who : int }   (* who = session the event belongs to 
 let run_events (evs : xevent list) : xserver =
   List.fold_left (fun xs e -> xclear ops (xstep ops fixes xs e)) (empty_xserver ops) evs
 
+(* ---- label q: ordered children (Refl/IsoOrd.v).  INSERTORDEREDDATA with one key, REORDERDATA; the lines carry tree (with
+   the ordered index of every node) and sessions only: INDEXUPDATED notifications are not modelled *)
+let iname (c : n) : n = intern ("I" ^ string_of_int (int_of_n c))
+let remove_from_index = "!Rmv"
+let before_of (s : string) : n option = if s = remove_from_index then None else Some (intern s)
+
+let parse_ocmd (code : string) (fs : string list) : ocmd option =
+  let nth k = match List.nth_opt fs k with Some x -> x | None -> "" in
+  match code with
+  | "io" ->
+    (match items (nth 0) with
+     | [key] ->
+       (* the Message's fields in order of first appearance, each with its values in order *)
+       let its = List.map (fun it -> match String.index_opt it '=' with
+           | None -> (it, N0)
+           | Some i -> (String.sub it 0 i, payload_of_int (int_of_string (String.sub it (i+1) (String.length it - i - 1))))) (items (nth 1)) in
+       let names = List.fold_left (fun acc (b, _) -> if List.mem b acc then acc else acc @ [b]) [] its in
+       let grouped = List.concat_map (fun b -> List.filter_map (fun (b', v) -> if b' = b then Some (before_of b, v) else None) its) names in
+       Some (OInsert ((spath_of key, None), grouped))
+     | [] -> Some (OX (XCode (c_PR_COMMAND_INSERTORDEREDDATA, [])))   (* no key: a command without any field it interprets *)
+     | _ -> None)
+  | "ro" ->
+    let fl = List.map (fun it -> match String.index_opt it '=' with
+        | None -> (it, "")
+        | Some i -> (String.sub it 0 i, String.sub it (i+1) (String.length it - i - 1))) (items (nth 0)) in
+    (* a field name that occurs twice is one field with two values; FindString reads the first *)
+    let fl = List.fold_left (fun acc (k, v) -> if List.mem_assoc k acc then acc else acc @ [(k, v)]) [] fl in
+    Some (OReorder (List.map (fun (k, v) -> (spath_of k, before_of v)) fl))
+  | _ -> (match parse_cmd code fs with Some c -> Some (OX c) | None -> None)
+
+let parse_osubs (s : string) : ocmd list =
+  List.filter_map (fun so -> let sf = split '~' so in parse_ocmd (List.hd sf) (List.tl sf)) (if s = "" then [] else split '+' s)
+
+let onode_str (os : oserver) (nd : node) : string =
+  let ix = idx_get (o_idx ops os) nd.n_path in
+  node_str nd ^ (if ix = [] then "" else "[" ^ String.concat "" (List.map (fun x -> name_str x ^ ",") ix) ^ "]")
+
+let ostate_str (os : oserver) : string =
+  let xs = o_x ops os in
+  let sv = xs_sv ops xs in
+  "T{" ^ String.concat " " (List.map (onode_str os) (dfs dump_fuel (sv_tree ops sv) [])) ^ "} E{" ^
+  String.concat " " (List.map (sess_str xs) (sv_sessions ops sv)) ^ "}"
+
+(* everything a command of session s must leave alone, indices and counters included *)
+let oforeign_view (os : oserver) (s : int) : string =
+  let xs = o_x ops os in
+  let sv = xs_sv ops xs in
+  match List.find_opt (fun ss -> int_of_n ss.s_id = s) (sv_sessions ops sv) with
+  | None -> "<gone>"
+  | Some me ->
+    let dir = session_dir ops me in
+    foreign_view xs s ^ " || " ^
+    String.concat " " (List.filter_map (fun (p, l) -> if under dir p then None else Some (path_str p ^ "[" ^ String.concat "," (List.map name_str l) ^ "]")) (o_idx ops os))
+    ^ " || " ^
+    String.concat " " (List.filter_map (fun (p, c) -> if under dir p then None else Some (path_str p ^ "#" ^ string_of_int (int_of_n c))) (o_ctr ops os))
+
+let oobs_without (os : oserver) (s : int) : string =
+  obs_without (o_x ops os) s ^ " || " ^
+  String.concat " " (List.sort compare (List.map (fun (p, l) -> path_str p ^ "[" ^ String.concat "," (List.map name_str l) ^ "]") (o_idx ops os)))
+
+type oevrec = { oev : oevent; owho : int }
+
+let run_ordered_case (k : int) (body : string) : unit =
+  let opl = List.filter (fun s -> s <> "") (split ';' body) in
+  let os = ref (empty_oserver ops) in
+  let nsess = ref 0 in
+  let hist : oevrec list ref = ref [] in
+  let sessions () = sv_sessions ops (xs_sv ops (o_x ops !os)) in
+  let alive kk = kk >= 0 && List.exists (fun ss -> int_of_n ss.s_id = kk) (sessions ()) in
+  let sess_of kk = List.find_opt (fun ss -> int_of_n ss.s_id = kk) (sessions ()) in
+  let run_oevents evs = List.fold_left (fun o e -> oclear ops (ostep ops fixes iname o e)) (empty_oserver ops) evs in
+  let as_if_never j kk (after : oserver) =
+    let erased = List.filter_map (fun r -> if r.owho = kk then None else Some r.oev) (List.rev !hist) in
+    let base = run_oevents erased in
+    if oobs_without after kk <> oobs_without base kk then Printf.printf "%d ORACLE FAIL model-as-if-never op#%d c%d (ordered)\n" k j kk in
+  List.iteri (fun j op ->
+    let f = split ':' op in
+    let code = List.hd f in
+    let kk = match List.nth_opt f 1 with Some x -> (try int_of_string x with _ -> -1) | None -> -1 in
+    let valid, ev =
+      if code = "a" then begin
+        let id = !nsess in incr nsess;
+        let host = (match List.nth_opt f 1 with Some h when h <> "" -> h | _ -> "H") in
+        (true, Some (OAttach (n_of_int id, intern host, intern (string_of_int id), bits_of_host host), id))
+      end
+      else if not (alive kk) then (false, None)
+      else if code = "d" then (true, Some (ODetach (n_of_int kk), kk))
+      else if code = "b" then
+        (true, Some (OCmd (n_of_int kk, OBatch (parse_osubs (match List.nth_opt f 2 with Some x -> x | None -> ""))), kk))
+      else begin
+        match parse_ocmd code (match f with _ :: _ :: r -> r | _ -> []) with
+        | Some c -> (true, Some (OCmd (n_of_int kk, c), kk))
+        | None -> (false, None)
+      end in
+    let before = if valid && code <> "a" && code <> "d" then Some (oforeign_view !os kk) else None in
+    let unpriv = valid && int_of_n (priv_get (xs_priv ops (o_x ops !os)) (n_of_int kk)) = 0 in
+    let dir = match sess_of kk with Some ss -> session_dir ops ss | None -> [] in
+    (match ev with
+     | Some (e, who) -> os := ostep ops fixes iname !os e; hist := { oev = e; owho = who } :: !hist
+     | None -> ());
+    Printf.printf "%d %d %s%s %s\n" k j code (if valid then "" else "!") (ostate_str !os);
+    (match before with
+     | Some b when unpriv && alive kk && oforeign_view !os kk <> b -> Printf.printf "%d ORACLE FAIL model-frame op#%d c%d (ordered)\n" k j kk
+     | _ -> ());
+    if valid && code = "d" then begin
+      (match trace_of (o_x ops !os) kk dir with Some w -> Printf.printf "%d ORACLE FAIL model-detach-trace op#%d c%d %s\n" k j kk w | None -> ());
+      if List.exists (fun (p, _) -> under dir p) (o_idx ops !os) || List.exists (fun (p, _) -> under dir p) (o_ctr ops !os) then
+        Printf.printf "%d ORACLE FAIL model-detach-trace op#%d c%d index or counter left\n" k j kk;
+      if unpriv then as_if_never j kk !os
+    end;
+    os := oclear ops !os
+  ) opl
+
 let () =
   let lines = Ocommon.read_lines () in
   List.iteri (fun k line ->
@@ -235,6 +348,9 @@ let () =
     | Some bar when bar > 0 && line.[0] = 'i' ->
       (* the stream with INSERTORDEREDDATA / REORDERDATA: not modelled; the harness judges it by its oracles alone *)
       Printf.printf "%d i\n" k
+    | Some bar when bar > 0 && line.[0] = 'q' ->
+      Hashtbl.reset tbl; Hashtbl.reset rev_tbl;
+      run_ordered_case k (String.sub line (bar+1) (String.length line - bar - 1))
     | Some bar ->
       Hashtbl.reset tbl; Hashtbl.reset rev_tbl;
       let body = String.sub line (bar+1) (String.length line - bar - 1) in
